@@ -729,4 +729,16 @@ func c15Tree(c *core.Ctx) {
 			}
 		}
 	}
+	// the parse is over before the first interceptor runs: every Before / After hook on the path sees the same flags
+	for ev, at := range o.SetByAt {
+		for tid, sb := range at {
+			for name, set := range sb {
+				if set != o.SetBy[tid][name] {
+					c.Violation(fmt.Sprintf("command id %d, %s: SetByUser=%v as seen from hook %s, %v inside the Action", tid, name, set, ev, o.SetBy[tid][name]), nil, nil)
+					return
+				}
+			}
+		}
+		c.Inc("T_hook_observations")
+	}
 }
